@@ -150,8 +150,23 @@ static void it_construct(struct iter* r, struct hms* l, mptr* start) {   /* prev
 #define FI_DTOR(info) fi_dtor(&(info))
 #define IT_DTOR(it) fi_dtor(&(it).info)
 #define IT_FROM_INFO(ret, self, info) it_from_info((ret), (self), &(info))
-#define IT_MOVE_CTOR(ret, src) it_move_ctor((ret), &(src))
-#define IT_COPY_CTOR(ret, src) it_copy_ctor((ret), &(src))
+/* the iterator's special member functions: `= default` in the pinned text (then lowered.h defines XV_DEFAULTED_<id> and the member-wise model
+   above IS their meaning); a user-provided body is lowered (hms_iter_*) and used instead - run iter_special checks the member-wise contract on it */
+static void it_move_ctor_d(struct iter* r, struct iter* s);
+static void it_copy_ctor_d(struct iter* r, struct iter* s);
+static void it_copy_assign_d(struct iter* d, struct iter* s);
+static void it_move_assign_d(struct iter* d, struct iter* s);
+#define IT_MOVE_CTOR(ret, src) it_move_ctor_d((ret), &(src))
+#define IT_COPY_CTOR(ret, src) it_copy_ctor_d((ret), &(src))
+static void fi_copy_assign(struct find_info* d, struct find_info* s) { if (d == s) return; d->prev = s->prev; d->next = s->next; g_copy(&d->cur, &s->cur); g_copy(&d->save, &s->save); }
+static void fi_move_assign(struct find_info* d, struct find_info* s) { if (d == s) return; d->prev = s->prev; d->next = s->next; g_move(&d->cur, &s->cur); g_move(&d->save, &s->save); }
+#define FI_COPY_CTOR(d, s) fi_copy(&(d), &(s))
+#define FI_MOVE_CTOR(d, s) fi_move(&(d), &(s))
+#define FI_COPY_ASSIGN(d, s) fi_copy_assign(&(d), &(s))
+#define FI_MOVE_ASSIGN(d, s) fi_move_assign(&(d), &(s))
+#define XV_INIT_info(self, v) fi_copy(&(self)->info, &(v))      /* member initialiser info(other.info) of a user-provided copy constructor */
+static void hms_iter_inc(struct iter* self);
+#define IT_INC(it) hms_iter_inc(it)
 #define IT_CONSTRUCT(ret, self, start) it_construct((ret), (self), (start))
 #define XV_INIT_list(self, v) (self)->list = *(v)
 static _Bool hms_find(struct hms* self, hkey key, struct find_info* info_p, int* backoff_p);
@@ -426,6 +441,27 @@ size_t inc_c0; unsigned char inc_gen0;
 
 
 #include "lowered.h"
+#ifdef XV_DEFAULTED_iter_copy_ctor
+static void it_copy_ctor_d(struct iter* r, struct iter* s) { it_copy_ctor(r, s); }
+#else
+static void it_copy_ctor_d(struct iter* r, struct iter* s) { r->info.prev = nondet_uptr_p(); r->info.next = 0; G_INIT(r->info.cur); G_INIT(r->info.save); hms_iter_copy_ctor(r, s); }
+#endif
+#ifdef XV_DEFAULTED_iter_move_ctor
+static void it_move_ctor_d(struct iter* r, struct iter* s) { it_move_ctor(r, s); }
+#else
+static void it_move_ctor_d(struct iter* r, struct iter* s) { r->info.prev = nondet_uptr_p(); r->info.next = 0; G_INIT(r->info.cur); G_INIT(r->info.save); hms_iter_move_ctor(r, s); }
+#endif
+#ifdef XV_DEFAULTED_iter_copy_assign
+static void it_copy_assign_d(struct iter* d, struct iter* s) { d->list = s->list; fi_copy_assign(&d->info, &s->info); }
+#else
+static void it_copy_assign_d(struct iter* d, struct iter* s) { hms_iter_copy_assign(d, s); }
+#endif
+#ifdef XV_DEFAULTED_iter_move_assign
+static void it_move_assign_d(struct iter* d, struct iter* s) { d->list = s->list; fi_move_assign(&d->info, &s->info); }
+#else
+static void it_move_assign_d(struct iter* d, struct iter* s) { hms_iter_move_assign(d, s); }
+#endif
+
 
 /* ================================================================== SEQ harnesses */
 int in_k; unsigned in_start, in_cur; size_t in_j;
@@ -671,6 +707,69 @@ void h_iter_copy(void) {
   }
   IT_DTOR(b); IT_DTOR(a);
   XV_OBL("hms.iter.copy.independent", g_cnt[in_j] == (int)guards_on(&g_it.info, in_j));
+}
+
+/* operator++(int): the returned iterator is a full copy of the old position, *this advances as operator++ does */
+void h_iter_postinc(void) {
+  build(); in_j = nondet_size(); XV_ASSUME(in_j < NP);
+  any_iter(&g_it, 1);
+  snapshot();
+  size_t c0 = in_cur; hkey k0 = pre_key[c0]; _Bool c0_marked = MP_mark(pre_next[c0]) != 0;
+  XV_ASSUME(iter_inv(&g_it));
+  struct iter it0 = g_it;                 /* (bit copy of the position for the comparison below; not a guard) */
+  struct iter ret;
+  hms_iter_postinc(&g_it, &ret);
+  _Bool wf = walk();
+  XV_OBL("hms.iter.postinc.copy", ret.list == it0.list && ret.info.prev == it0.info.prev && ret.info.cur.ptr == it0.info.cur.ptr && ret.info.save.ptr == it0.info.save.ptr
+                                  && !ret.info.cur.fake && !ret.info.save.fake);
+  XV_OBL("hms.iter.postinc.copy", g_cnt[in_j] == (int)(guards_on(&g_it.info, in_j) + guards_on(&ret.info, in_j)));     /* every guard of both iterators protects */
+  size_t nc = G_GET(g_it.info.cur) == 0 ? NP : NIDX(G_GET(g_it.info.cur));
+  XV_OBL("hms.iter.inc.next_live", wf && nc == first_ge(k0, c0));
+  XV_OBL("hms.iter.inc.progress", nc != c0 && (nc == NP || KEY_LESS(k0, pool[nc].key) || (c0_marked && pool[nc].key == k0)));
+  XV_OBL("hms.iter.inc.position", iter_inv(&g_it) && *g_it.info.prev == G_GET(g_it.info.cur));
+  XV_OBL("hms.iter.inc.safe", !g_unsafe);
+  /* the returned iterator stays usable: it can be advanced on its own */
+  if (G_GET(ret.info.cur) != 0) { hms_iter_inc(&ret); XV_OBL("hms.iter.postinc.copy", !g_unsafe && iter_inv(&ret)); }
+  IT_DTOR(ret);
+  XV_OBL("hms.iter.postinc.copy", g_cnt[in_j] == (int)guards_on(&g_it.info, in_j));
+  if (c0_marked) XV_CANARY("postinc.slow"); else XV_CANARY("postinc.fast");
+}
+
+/* the special member functions (defaulted: the member-wise model checked against its own contract; user-provided: the lowered body) + reset + operator== */
+void h_iter_special(void) {
+  build(); in_j = nondet_size(); XV_ASSUME(in_j < NP);
+  any_iter(&g_it, 0);
+  snapshot(); XV_ASSUME(iter_inv(&g_it));
+  struct iter src0 = g_it;
+  /* a second, unrelated iterator as assignment target */
+  struct iter t; unsigned ts = nondet_uint(), tc = nondet_uint();
+  t.list = &the_set; t.info.next = nondet_uptr(); give_guard(&t.info.save, ts); give_guard(&t.info.cur, tc);
+  if (ts == NP) t.info.prev = &the_set.head; else t.info.prev = &pool[ts].next;
+  if (ts != NP && tc != NP) XV_ASSUME(KEY_LESS(in_key[ts], in_key[tc]));
+  XV_ASSUME(iter_inv(&t));
+  int base = (int)guards_on(&g_it.info, in_j);
+  XV_OBL("hms.iter.special.memberwise", g_cnt[in_j] == base + (int)guards_on(&t.info, in_j));
+  XV_OBL("hms.iter.reset.releases", hms_iter_eq(&t, &g_it) == (G_GET(t.info.cur) == G_GET(g_it.info.cur)));
+  _Bool which = nondet_bool();
+  if (which) {
+    it_copy_assign_d(&t, &g_it);
+    XV_OBL("hms.iter.special.memberwise", t.list == src0.list && t.info.prev == src0.info.prev && t.info.cur.ptr == src0.info.cur.ptr && t.info.save.ptr == src0.info.save.ptr && iter_inv(&t));
+    XV_OBL("hms.iter.special.memberwise", g_it.list == src0.list && g_it.info.prev == src0.info.prev && g_it.info.cur.ptr == src0.info.cur.ptr && g_it.info.save.ptr == src0.info.save.ptr);
+    XV_OBL("hms.iter.special.memberwise", g_cnt[in_j] == 2 * base);
+    it_copy_assign_d(&t, &t);            /* self-assignment */
+    XV_OBL("hms.iter.special.memberwise", t.info.cur.ptr == src0.info.cur.ptr && t.info.save.ptr == src0.info.save.ptr && t.info.prev == src0.info.prev && g_cnt[in_j] == 2 * base);
+    XV_CANARY("special.copy_assign");
+  } else {
+    it_move_assign_d(&t, &g_it);
+    XV_OBL("hms.iter.special.memberwise", t.list == src0.list && t.info.prev == src0.info.prev && t.info.cur.ptr == src0.info.cur.ptr && t.info.save.ptr == src0.info.save.ptr && iter_inv(&t));
+    XV_OBL("hms.iter.special.memberwise", g_cnt[in_j] == base + (int)guards_on(&g_it.info, in_j) && !g_it.info.cur.fake && !g_it.info.save.fake);   /* whatever the source keeps is still protected */
+    XV_OBL("hms.iter.special.memberwise", g_cnt[in_j] == (int)guards_on(&t.info, in_j) + (int)guards_on(&g_it.info, in_j));
+    XV_CANARY("special.move_assign");
+  }
+  hms_iter_reset(&t);
+  XV_OBL("hms.iter.reset.releases", G_GET(t.info.cur) == 0 && G_GET(t.info.save) == 0 && t.list == &the_set && g_cnt[in_j] == (int)guards_on(&g_it.info, in_j));
+  { struct iter e; hms_end(&the_set, &e); XV_OBL("hms.iter.reset.releases", hms_iter_eq(&t, &e)); IT_DTOR(e); }
+  XV_OBL("hms.iter.special.memberwise", !g_unsafe);
 }
 
 
